@@ -6,5 +6,6 @@ CONSTANTS
   PRECANCEL = FALSE
   ANYCANCEL = FALSE
   ANYCLOSE = FALSE
+  RECHECK = FALSE
 INVARIANT NoLostWakeup
 CHECK_DEADLOCK TRUE
